@@ -308,7 +308,11 @@ def execute(case, scratch):
                 needles = ["codec can't decode"]
             else:
                 needles = [needle]
-            for argv in (['up', cmd['cfg'], '--summary'], ['diag', cmd['cfg']]):
+            observers = [['up', cmd['cfg'], '--summary'], ['diag', cmd['cfg']]]
+            if cmd['kind'] == 'rules':
+                # the statement does not limit the duty to report to one command: the other commands that classify load the same file
+                observers += [['explain', cmd['cfg']], ['discover', cmd['cfg'], '--format', 'json']]
+            for argv in observers:
                 r = proc.run_cli(root, argv, {'reads': cmd.get('reads') or {}, 'net': 'down'}, ctl_parent=ctlp)
                 count['command_runs'] += 1
                 obs = argv[0]
